@@ -138,12 +138,16 @@ structure Rel (s : SState) (scopes : List Scope) (next : Nat) : Prop where
   sorted : s.frames.Pairwise (· > ·)
   bound : ∀ f ∈ s.frames, f < s.store.length
   sids : ∀ f ∈ s.frames, ∀ fr, s.store[f]? = some fr → ∀ sid ∈ fr.syms, sid < s.syms.length
+  nodup : ∀ f ∈ s.frames, ∀ fr, s.store[f]? = some fr → fr.syms.Nodup
 
 theorem Rel.init : Rel SState.init [[]] 0 := by
-  refine ⟨rfl, ⟨⟨none, []⟩, rfl, rfl⟩, ⟨⟨⟨none, []⟩, rfl, rfl⟩, trivial⟩, by simp [SState.init], by simp [SState.init], ?_⟩
-  intro f hf fr hfr sid hs
-  simp [SState.init] at hf hfr
-  subst hf; simp at hfr; subst hfr; simp at hs
+  refine ⟨rfl, ⟨⟨none, []⟩, rfl, rfl⟩, ⟨⟨⟨none, []⟩, rfl, rfl⟩, trivial⟩, by simp [SState.init], by simp [SState.init], ?_, ?_⟩
+  · intro f hf fr hfr sid hs
+    simp [SState.init] at hf hfr
+    subst hf; simp at hfr; subst hfr; simp at hs
+  · intro f hf fr hfr
+    simp [SState.init] at hf hfr
+    subst hf; simp at hfr; subst hfr; exact List.nodup_nil
 
 theorem Rel.use {s : SState} {scopes : List Scope} {next : Nat} (h : Rel s scopes next) (x : String) :
     s.use x = lookupScopes x scopes := by
@@ -185,14 +189,15 @@ theorem Rel.leave {s : SState} {sc : Scope} {scopes : List Scope} {next : Nat} (
     cases hfs : fs with
     | nil => rw [hf, hfs] at hlen; cases scopes <;> simp at hlen hne
     | cons g rest =>
-      have hc := h.chain; have hs := h.scopes_ok; have hp := h.sorted; have hb := h.bound; have hsid := h.sids
-      rw [hf, hfs] at hc hs hp hb hsid
-      refine ⟨h.next_eq, ?_, ?_, ?_, ?_, ?_⟩ <;> simp only [SState.leave, hf, hfs, List.tail_cons]
+      have hc := h.chain; have hs := h.scopes_ok; have hp := h.sorted; have hb := h.bound; have hsid := h.sids; have hnd := h.nodup
+      rw [hf, hfs] at hc hs hp hb hsid hnd
+      refine ⟨h.next_eq, ?_, ?_, ?_, ?_, ?_, ?_⟩ <;> simp only [SState.leave, hf, hfs, List.tail_cons]
       · exact hc.2
       · exact hs.2
       · exact (List.pairwise_cons.mp hp).2
       · exact fun f' hf' => hb f' (List.mem_cons_of_mem _ hf')
       · exact fun f' hf' => hsid f' (List.mem_cons_of_mem _ hf')
+      · exact fun f' hf' => hnd f' (List.mem_cons_of_mem _ hf')
 
 theorem Rel.declare {s : SState} {sc : Scope} {scopes : List Scope} {next : Nat} (h : Rel s (sc :: scopes) next) (x : String) :
     Rel (s.declare x) (((x, next) :: sc) :: scopes) (next + 1) := by
@@ -200,8 +205,8 @@ theorem Rel.declare {s : SState} {sc : Scope} {scopes : List Scope} {next : Nat}
   cases hf : s.frames with
   | nil => rw [hf] at hlen; simp at hlen
   | cons f fs =>
-    have hc := h.chain; have hs := h.scopes_ok; have hp := h.sorted; have hb := h.bound; have hsid := h.sids
-    rw [hf] at hc hs hp hb hsid
+    have hc := h.chain; have hs := h.scopes_ok; have hp := h.sorted; have hb := h.bound; have hsid := h.sids; have hnd := h.nodup
+    rw [hf] at hc hs hp hb hsid hnd
     obtain ⟨⟨fr, hfr, hsc⟩, hrest⟩ := hs
     have hnotin : ∀ g ∈ fs, g ≠ f := fun g hg => Nat.ne_of_lt ((List.pairwise_cons.mp hp).1 g hg)
     have htop : s.top = f := by simp [SState.top, hf]
@@ -211,7 +216,7 @@ theorem Rel.declare {s : SState} {sc : Scope} {scopes : List Scope} {next : Nat}
       cases s.store[g]? <;> simp [Ne.symm hg]
     have hmod : (s.store.modify f (fun fr => { fr with syms := fr.syms ++ [s.syms.length] }))[f]? = some { fr with syms := fr.syms ++ [s.syms.length] } := by
       rw [List.getElem?_modify, hfr]; simp
-    refine ⟨by simp [SState.declare, h.next_eq], ?_, ?_, ?_, ?_, ?_⟩ <;> simp only [SState.declare, hf, htop]
+    refine ⟨by simp [SState.declare, h.next_eq], ?_, ?_, ?_, ?_, ?_, ?_⟩ <;> simp only [SState.declare, hf, htop]
     · refine ChainOk.congr ?_ hc
       intro g hg fr' hfr'
       by_cases hgf : g = f
@@ -240,6 +245,17 @@ theorem Rel.declare {s : SState} {sc : Scope} {scopes : List Scope} {next : Nat}
         · rw [h1]; exact Nat.lt_succ_self _
       · rw [hother g hgf] at hfr'
         exact Nat.lt_succ_of_lt (hsid g hg fr' hfr' sid hsidm)
+    · intro g hg fr' hfr'
+      by_cases hgf : g = f
+      · subst hgf; rw [hmod] at hfr'; cases hfr'
+        refine List.nodup_append.mpr ⟨hnd g List.mem_cons_self fr hfr, by simp, ?_⟩
+        intro a ha b hb' hab
+        simp only [List.mem_singleton] at hb'
+        have := hsid g List.mem_cons_self fr hfr a ha
+        rw [hab, hb'] at this
+        exact Nat.lt_irrefl _ this
+      · rw [hother g hgf] at hfr'
+        exact hnd g hg fr' hfr'
 
 
 theorem symName_mkSyms (syms : List Symbol) (bs : List String) (i : Nat) (hi : i < bs.length) :
@@ -256,10 +272,10 @@ theorem Rel.enter {s : SState} {scopes : List Scope} {next : Nat} (h : Rel s sco
   cases hf : s.frames with
   | nil => have := h.chain; rw [hf] at this; exact absurd this (by simp [ChainOk])
   | cons f fs =>
-    have hc := h.chain; have hs := h.scopes_ok; have hp := h.sorted; have hb := h.bound; have hsid := h.sids
-    rw [hf] at hc hs hp hb hsid
+    have hc := h.chain; have hs := h.scopes_ok; have hp := h.sorted; have hb := h.bound; have hsid := h.sids; have hnd := h.nodup
+    rw [hf] at hc hs hp hb hsid hnd
     have htop : s.top = f := by simp [SState.top, hf]
-    refine ⟨by simp [SState.enter, mkSyms, h.next_eq], ?_, ?_, ?_, ?_, ?_⟩ <;> simp only [SState.enter, hf, htop]
+    refine ⟨by simp [SState.enter, mkSyms, h.next_eq], ?_, ?_, ?_, ?_, ?_, ?_⟩ <;> simp only [SState.enter, hf, htop]
     · refine ⟨⟨_, List.getElem?_concat_length, rfl⟩, ?_⟩
       refine ChainOk.congr ?_ hc
       intro g hg fr hfr
@@ -294,6 +310,109 @@ theorem Rel.enter {s : SState} {scopes : List Scope} {next : Nat} (h : Rel s sco
         rw [← he]; exact Nat.add_lt_add_left hi _
       · rw [hold g (hb g h1)] at hfr
         exact Nat.lt_of_lt_of_le (hsid g h1 fr hfr sid hsidm) (Nat.le_add_right _ _)
+    · intro g hg fr hfr
+      rcases List.mem_cons.mp hg with h1 | h1
+      · subst h1
+        rw [List.getElem?_concat_length] at hfr; cases hfr
+        exact List.Pairwise.map _ (fun a b (hab : a ≠ b) hh => hab (Nat.add_left_cancel hh)) List.nodup_range
+      · rw [hold g (hb g h1)] at hfr
+        exact hnd g h1 fr hfr
+
+/-- taking the symbol the lookup found out of a duplicate-free symbol list = withdrawing the latest entry of that name -/
+theorem filter_ne_eq_eraseP (syms : List Symbol) (x : String) : ∀ (L : List SymId) (sid : SymId), L.Nodup →
+    L.find? (fun s => symName syms s = x) = some sid →
+    (L.filter (· ≠ sid)).map (fun s => (symName syms s, s)) = (L.map (fun s => (symName syms s, s))).eraseP (fun d => d.1 = x) := by
+  intro L
+  induction L with
+  | nil => intro sid _ h; simp at h
+  | cons a t ih =>
+    intro sid hnd hfind
+    have hnd' := List.nodup_cons.mp hnd
+    by_cases hp : symName syms a = x
+    · have : sid = a := by simpa [List.find?, hp] using hfind.symm
+      subst this
+      have hself : t.filter (· ≠ sid) = t := List.filter_eq_self.mpr (fun b hb => by
+        have : b ≠ sid := fun hbs => hnd'.1 (hbs ▸ hb)
+        simpa using this)
+      rw [List.filter_cons_of_neg (by simp), hself, List.map_cons, List.eraseP_cons_of_pos (by simpa using hp)]
+    · have hfind' : t.find? (fun s => symName syms s = x) = some sid := by simpa [List.find?, hp] using hfind
+      have hsx : symName syms sid = x := by simpa using List.find?_some hfind'
+      have hne : a ≠ sid := fun has => hp (has ▸ hsx)
+      rw [List.filter_cons_of_pos (by simpa using hne), List.map_cons, List.map_cons, List.eraseP_cons_of_neg (by simpa using hp),
+        ih sid hnd'.2 hfind']
+
+theorem Rel.remove {s : SState} {sc : Scope} {scopes : List Scope} {next : Nat} (h : Rel s (sc :: scopes) next) (x : String) :
+    Rel (s.remove x) (withdraw x sc :: scopes) next := by
+  have hlen := h.scopes_ok.length
+  cases hf : s.frames with
+  | nil => rw [hf] at hlen; simp at hlen
+  | cons f fs =>
+    have hc := h.chain; have hs := h.scopes_ok; have hp := h.sorted; have hb := h.bound; have hsid := h.sids; have hnd := h.nodup
+    rw [hf] at hc hs hp hb hsid hnd
+    obtain ⟨⟨fr, hfr, hsc⟩, hrest⟩ := hs
+    have hnotin : ∀ g ∈ fs, g ≠ f := fun g hg => Nat.ne_of_lt ((List.pairwise_cons.mp hp).1 g hg)
+    have htop : s.top = f := by simp [SState.top, hf]
+    cases hl : fr.lookup s.syms x with
+    | none =>
+      -- the top frame holds no symbol of that name: nothing is removed, and nothing is withdrawn
+      have hrm : s.remove x = s := by simp [SState.remove, htop, hfr, hl]
+      have hw : withdraw x sc = sc := by
+        unfold withdraw
+        split
+        · rfl
+        · rename_i hx
+          apply List.eraseP_of_forall_not
+          intro d hd
+          have hls : lookupScope x sc = none := by rw [hsc, ← lookup_frameScope]; exact hl
+          unfold lookupScope at hls
+          simp only [hx, if_false, Option.map_eq_none_iff] at hls
+          simpa using List.find?_eq_none.mp hls d hd
+      rw [hrm, hw]
+      exact ⟨h.next_eq, by rw [hf]; exact hc, by rw [hf]; exact ⟨⟨fr, hfr, hsc⟩, hrest⟩, by rw [hf]; exact hp, by rw [hf]; exact hb,
+        by rw [hf]; exact hsid, by rw [hf]; exact hnd⟩
+    | some sid =>
+      have hx : x ≠ "" := by intro hx; simp [Frame.lookup, hx] at hl
+      have hfind : fr.syms.reverse.find? (fun s' => symName s.syms s' = x) = some sid := by simpa [Frame.lookup, hx] using hl
+      have hrm : s.remove x = { s with store := s.store.modify f (fun fr => { fr with syms := fr.syms.filter (· ≠ sid) }) } := by
+        simp [SState.remove, htop, hfr, hl]
+      have hother : ∀ g, g ≠ f → (s.store.modify f (fun fr => { fr with syms := fr.syms.filter (· ≠ sid) }))[g]? = s.store[g]? := by
+        intro g hg
+        rw [List.getElem?_modify]
+        cases s.store[g]? <;> simp [Ne.symm hg]
+      have hmod : (s.store.modify f (fun fr => { fr with syms := fr.syms.filter (· ≠ sid) }))[f]? = some { fr with syms := fr.syms.filter (· ≠ sid) } := by
+        rw [List.getElem?_modify, hfr]; simp
+      rw [hrm]
+      refine ⟨h.next_eq, ?_, ?_, ?_, ?_, ?_, ?_⟩ <;> simp only [hf]
+      · refine ChainOk.congr ?_ hc
+        intro g hg fr' hfr'
+        by_cases hgf : g = f
+        · subst hgf; rw [hfr] at hfr'; cases hfr'; exact ⟨_, hmod, rfl⟩
+        · exact ⟨fr', by rw [hother g hgf]; exact hfr', rfl⟩
+      · refine ⟨⟨_, hmod, ?_⟩, ?_⟩
+        · have := filter_ne_eq_eraseP s.syms x fr.syms.reverse sid (List.pairwise_reverse.mpr ((hnd f List.mem_cons_self fr hfr).imp Ne.symm)) hfind
+          unfold withdraw
+          simp only [hx, if_false]
+          rw [hsc]
+          unfold frameScope
+          simp only [← List.map_reverse, ← List.filter_reverse]
+          exact this.symm
+        · refine ScopesOk.congr ?_ hrest
+          intro g hg fr' hfr'
+          exact ⟨by rw [hother g (hnotin g hg)]; exact hfr', rfl⟩
+      · exact hp
+      · intro g hg; simp only [List.length_modify]; exact hb g hg
+      · intro g hg fr' hfr' sid' hsidm
+        by_cases hgf : g = f
+        · subst hgf; rw [hmod] at hfr'; cases hfr'
+          exact hsid g List.mem_cons_self fr hfr sid' (List.mem_filter.mp hsidm).1
+        · rw [hother g hgf] at hfr'
+          exact hsid g hg fr' hfr' sid' hsidm
+      · intro g hg fr' hfr'
+        by_cases hgf : g = f
+        · subst hgf; rw [hmod] at hfr'; cases hfr'
+          exact List.Pairwise.filter _ (hnd g List.mem_cons_self fr hfr)
+        · rw [hother g hgf] at hfr'
+          exact hnd g hg fr' hfr'
 
 /-- the refinement: from related states the two semantics produce the same bindings on every well-nested script -/
 theorem impl_eq_spec : ∀ (evs : List Ev) (s : SState) (scopes : List Scope) (next : Nat) (d : Nat),
@@ -312,6 +431,11 @@ theorem impl_eq_spec : ∀ (evs : List Ev) (s : SState) (scopes : List Scope) (n
       cases scopes with
       | nil => simp at hd
       | cons sc rest => exact ih _ _ _ d (h.declare x) (by simpa using hd) hw
+    | remove x =>
+      simp only [implRun, specRun, wellNested] at hw ⊢
+      cases scopes with
+      | nil => simp at hd
+      | cons sc rest => exact ih _ _ _ d (h.remove x) (by simpa using hd) hw
     | enter bs =>
       simp only [implRun, specRun, wellNested] at hw ⊢
       exact ih _ _ _ (d + 1) (h.enter bs) (by simp [hd]) hw
